@@ -68,6 +68,7 @@ class Contract(object):
         self.bounded = d.get("bounded")           # text if this is a bounded stand-in, else None
         self.accepts = d.get("accepts")           # python-level predicate(ctx, ns): typed case selector at call sites
         self.pre_hints = d.get("pre_hints")       # {callee name: spec fn} proof hints run before proving pre@callee
+        self.proof = d.get("proof", "symbolic")   # 'symbolic' | 'table' (discharged by a @table obligation)
         self.pure = d.get("pure")                 # 'str'|'bytes'|'int': result is a function of the arguments
 
 
@@ -87,9 +88,10 @@ class Lemma(object):
 LEMMAS = []
 
 
-def lemma(name, prop, args):
+def lemma(name, prop, over):
+    """sequence-induction lemma: fn(s) for every sequence s of element kind `over`"""
     def deco(fn):
-        LEMMAS.append(Lemma(name, prop, fn, args))
+        LEMMAS.append(Lemma(name, prop, fn, {"over": over}))
         return fn
     return deco
 
